@@ -146,6 +146,8 @@ def plan(tier, seed):
     threads = (1, 2, 3, 4) if tier == "quick" else (1, 2, 3, 4, 8, 16, 32)
     for ci in range(8):
         shards.append(("seq", orders[ci::8], sizes, TOLS, threads))
+    for ci in range(16):
+        shards.append(("hist", ci, 16))
     vs = [(4097, 2, 2), (8193, 2, 2), (8193, 3, 1)] if tier == "quick" else \
         [(4097, 2, 3), (8193, 2, 3), (8193, 3, 2), (12289, 3, 2), (12289, 2, 3), (8193, 4, 1), (16385, 4, 1)]
     for ng, T, b in vs:
@@ -207,6 +209,41 @@ def _run_seq(desc):
             for tol in tols:
                 case = {"kind": "seq", "order": list(order), "npeaks": n, "tol": tol, "seed": seed_of()}
                 run_seq_case(sh, cI, indexing, U, order, gv, tol, threads if n > 4096 else threads[:2], case)
+        sh.sample(case, limit=1)
+    return sh
+
+
+def _run_hist(desc):
+    """histories: the SAME indexer object is asked to assign twice, with grain list L1 and then L2 (all ordered pairs of
+    the 64 ordered lists); after the second call everything must describe L2 only."""
+    _, ci, nch = desc
+    from ImageD11 import cImageD11 as cI, indexing
+    indexing.loglevel = 3
+    sh = Shard()
+    U = grains(seed_of())
+    pool = peak_pool(U)
+    orders = [p for k in range(1, 5) for p in itertools.permutations(range(4), k)]
+    gv = peak_list(pool, 257, shift=5)
+    tol = 0.1
+    for a, L1 in enumerate(orders):
+        if a % nch != ci:
+            continue
+        for L2 in orders:
+            ind = indexing.indexer(unitcell=None, gv=gv.copy(), hkl_tol=tol)
+            ind.ubis = [U[g].copy() for g in L1]
+            ind.fight_over_peaks()
+            ind.ubis = [U[g].copy() for g in L2]
+            ind.fight_over_peaks()
+            case = {"kind": "hist", "first": list(L1), "second": list(L2), "seed": seed_of()}
+            ubis = [U[g] for g in L2]
+            if check_assignment(sh, "fight_over_peaks[second call on the same indexer]", case, ubis, gv, tol, ind.ga, ind.drlv2, 2.0,
+                                list(range(len(ubis)))):
+                hist = np.bincount(ind.ga[ind.ga >= 0], minlength=len(ubis))
+                if list(hist) != [int(x) for x in ind.gas]:
+                    sh.violation("fight_over_peaks[second call]:gas-not-histogram", case, {"gas": ind.gas, "hist": hist})
+            sh.evaluations += 1
+            if len(L2) < len(L1):
+                sh.nontrivial += 1
         sh.sample(case, limit=1)
     return sh
 
@@ -291,6 +328,8 @@ def _run_sched(desc):
 def run_shard(desc):
     if desc[0] == "seq":
         return _run_seq(desc)
+    if desc[0] == "hist":
+        return _run_hist(desc)
     return _run_sched(desc)
 
 
@@ -299,7 +338,10 @@ def replay(case):
     indexing.loglevel = 3
     sh = Shard()
     os.environ["VERIF_SEED"] = str(case.get("seed", 0))
-    if case["kind"] == "seq":
+    if case["kind"] == "hist":
+        r = _run_hist(("hist", 0, 1))
+        sh.violations = [v for v in r.violations if v["case"]["first"] == case["first"] and v["case"]["second"] == case["second"]]
+    elif case["kind"] == "seq":
         U = grains(case.get("seed", 0))
         pool = peak_pool(U)
         order = tuple(case["order"])
